@@ -12,7 +12,14 @@ import (
 // splitmix64: every random choice of the harness derives from one state.
 type rng struct{ s uint64 }
 
-func newRng(seed uint64) *rng { return &rng{s: seed*0x9E3779B97F4A7C15 + 0x1234567} }
+// newRng: the state is a non-linear function of the seed (with a linear one, the stream of seed
+// n+1 is the stream of seed n shifted by one draw, and two seeds explore nearly the same scenarios)
+func newRng(seed uint64) *rng {
+	z := seed*0x9E3779B97F4A7C15 + 0x1234567
+	z = (z ^ (z >> 30)) * 0xBF58476D1CE4E5B9
+	z = (z ^ (z >> 27)) * 0x94D049BB133111EB
+	return &rng{s: z ^ (z >> 31)}
+}
 func (r *rng) next() uint64 {
 	r.s += 0x9E3779B97F4A7C15
 	z := r.s
